@@ -19,11 +19,10 @@ const (
 
 // The FXP opcode is both a basic instruction and a template for other instructions.
 type FXP struct {
-	fpName   string
-	s        int
-	f        int
-	opType   uint8
-	pipeline *uint8
+	fpName string
+	s      int
+	f      int
+	opType uint8
 }
 
 func (op FXP) Op_get_name() string {
@@ -257,9 +256,9 @@ func (op FXP) Simulate(vm *VM, instr string) error {
 	regDest := get_id(instr[:regBits])
 	regSrc := get_id(instr[regBits : regBits*2])
 
-	switch *op.pipeline {
+	switch vm.pipelinePhase(op.Op_get_name()) {
 	case FXPPUT:
-		*op.pipeline = FXPGET
+		vm.setPipelinePhase(op.Op_get_name(), FXPGET)
 	case FXPGET:
 		var dest int64
 		var src int64
@@ -299,7 +298,7 @@ func (op FXP) Simulate(vm *VM, instr string) error {
 			return errors.New("invalid register size, must be <= 64")
 		}
 		vm.Pc = vm.Pc + 1
-		*op.pipeline = LQPUT
+		vm.setPipelinePhase(op.Op_get_name(), LQPUT)
 	}
 	return nil
 }
